@@ -227,6 +227,7 @@ pub fn main(opts: &Opts) -> ! {
     extra.insert("runs_per_hour".into(), json!(((n_hist + res.runs) as f64 / t0.elapsed().as_secs_f64() * 3600.0) as u64));
     extra.insert("sim_time_s".into(), json!(res.sim_time_ns as f64 * 1e-9));
     extra.insert("faults_fired".into(), json!({"note": "no fault applies to a decoder object; the adverse operations are failed frames, limit 0 and limit changes (see probes)", "ber": res.counters.group("faults_fired")}));
+    extra.insert("stub_conformance".into(), stub_conformance());
     extra.insert("components".into(), json!({
         "real": ["DecoderImplementation::{from_str, build_decoder}", "flooding::Decoder", "horizontal_layered::Decoder", "all 24 arithmetics", "BER engine (part b)"],
         "stub": ["threads/channels/clock/RNG source of the BER engine (part b, dstsim)"],
